@@ -49,7 +49,7 @@ var hostile = []string{"", "0", "-1", "1", "2", "1000", "1001", "10000", "10001"
 	"bytes=0-", "bytes=-1", "bytes=0-0,1-1", "bytes=9223372036854775807-", "Enabled", "COMPLIANCE", "GOVERNANCE", "ON", "OFF",
 	"2020-01-01T00:00:00Z", "9999-12-31T23:59:59Z", "0000-00-00T00:00:00Z", "not-a-date", "url", "ETag", "ETag,", ",", "Checksum,ObjectParts",
 	"CRC32", "crc32", "SHA256", "CRC64NVME", "FULL_OBJECT", "COMPOSITE", "AAAAAA==", "!!!!", "private", "public-read", "bucket-owner-full-control",
-	"id=alice", "id=", "id=nobody", "uri=http://acs.amazonaws.com/groups/global/AllUsers", "emailAddress=a@b", "id=alice,id=bob", "COPY", "REPLACE",
+	"alice", "alice,bob", "alice,,bob", ",", "nobody", "all-users", "id=alice", "id=", "id=nobody", "uri=http://acs.amazonaws.com/groups/global/AllUsers", "emailAddress=a@b", "id=alice,id=bob", "COPY", "REPLACE",
 	"mp0", "mp1", "mp2", "obj1", "dir/obj2", "bkt-a/obj1", "/bkt-a/obj1", "bkt-a", "bkt-a/", "/", "bkt-a/obj1?versionId=", "bkt-a/obj1?versionId=null", "bkt-a/obj1?versionId=x&y", "nobucket/nokey", "%2e%2e/x"}
 
 var longValues = []string{strings.Repeat("a", 256), strings.Repeat("a", 1025), strings.Repeat("a/", 600), strings.Repeat("9", 400), strings.Repeat("%41", 300)}
